@@ -96,6 +96,18 @@ func respaceGo(r *fw.Rand, src []byte) []byte {
 			break
 		}
 		gap := string(src[t.end:toks[i+1].off])
+		// XGo's command-style syntax makes a few blanks significant by design (a blank between an operand and '(' or '[',
+		// a blank before `<-`/unary operators that is not matched by one after them): those places keep their spelling
+		if nx := src[toks[i+1].off]; (nx == '(' || nx == '[') && t.end > t.off {
+			if c := src[t.end-1]; c == ')' || c == ']' || c == '}' || c == '_' || c >= '0' && c <= '9' || c >= 'a' && c <= 'z' || c >= 'A' && c <= 'Z' || c >= 0x80 || c == '"' || c == '`' || c == '\'' {
+				b.WriteString(gap)
+				continue
+			}
+		}
+		if t.end-t.off <= 2 && strings.ContainsAny(string(src[t.off:t.end]), "<-+*&^!") && !strings.ContainsAny(string(src[t.off:t.end]), "=") {
+			b.WriteString(gap) // after an operator that can be unary: keep
+			continue
+		}
 		switch r.Intn(12) {
 		case 0:
 			if gap == " " {
